@@ -8,6 +8,18 @@ VERIF = os.path.dirname(os.path.dirname(os.path.abspath(__file__)))
 SEEDED = os.path.join(VERIF, 'seeded')
 
 NEEDS = {
+    'C14-r2m1': '3D grid and an exact tie between the x and y crossing parameters not larger than the z one (exactly diagonal ray from a cell centre/corner)',
+    'C14-r2m2': 'origin exactly on a cell border of an axis along which the ray moves in the negative direction, ray not axis-aligned',
+    'C15-r2m1': 'read through the const overload of operator() on a grid that has a non-zero index offset',
+    'C15-r2m2': '3D grid with ny != nz and a translation with a negative Z component',
+    'C16-r2m1': 'a configured precision <= 1e-5 (multiplier*multiplier overflows int), variance only',
+    'C16-r2m2': 'history: clear() followed by at least two appends on a ring of capacity >= 2',
+    'C17-r2m1': 'non-integer expected rate with fractional part >= 0.5 in [2,32) Hz, report read at stamp number W',
+    'C17-r2m2': 'equal-to check-up, window full, measured rate exactly on expected +- tolerance',
+    'C18-r2m1': 'append to an accumulated report with zero diagnostics and a non-empty info map',
+    'C18-r2m2': 'reliability check-up built with low threshold > high threshold and a value in [high, low)',
+    'C19-r2m1': 'two or more consumers and an interleaving where B copies between the copy and the reset of A (no data race, TSan silent)',
+    'C19-r2m2': 'a getReport() that wins the mutex between the two self-locking helper calls of evaluate() (no data race)',
     'C01-m1': 'longitude within ~2.6e-4 deg of the antimeridian (exactly -180 deg is the cleanest case)',
     'C01-m2': 'a converter built on a non-default ellipsoid (two cooperating sites: defaulted helper argument + forgotten argument)',
     'C02-m1': 'history: setAnchor twice with bit-identical lat/lon and a different height, no reset in between',
